@@ -145,6 +145,26 @@ def r16_5(ck, F):
               f"the inner guard can be released before {[b.loc(w) for w in bad[:3]]}", b.loc(locks[0]))
 
 
+def r16_6(ck, F):
+    ck.rule("R16.6", "every recovered subscriber is re-admitted before the fan-out: in broadcast::Sender::send the ready queue "
+            "(ready_rx.try_recv()) is drained in a loop that ends only on its Err (empty) outcome, and that loop is left "
+            "before the first subscriber is offered the value",
+            "two subscribers overflow and recover between the same two send() calls: only one is re-admitted per broadcast, "
+            "the other silently misses the following value(s) without a new lag marker", floor=1)
+    b = F.body("rch::broadcast::sender::Sender::send")
+    tr = [(bb, t) for bb, t in b.calls() if (callee(t) or "").endswith("UnboundedReceiver::try_recv") or
+          ((callee(t) or "").endswith("::try_recv") and "ready_rx" in mir.show(b.expr(t["a"][0])))]
+    if not tr:
+        raise mir.AnchorMissing("ready_rx.try_recv() in broadcast::Sender::send")
+    bb, t = tr[0]
+    oks = [tb for sb, tb, m, e in outcome_edges(b, None, lambda x: any(c[3] == bb for c in mir.calls_in(x))) if m == "Ok"]
+    fan = [q for q, tt in b.calls() if (callee(t2 := tt) or "").endswith("::try_send")]
+    looped = bool(oks) and all(bb in b.reach([o], avoid=fan) for o in oks)
+    ck.expect(looped, "Sender::send#ready-queue-drained", "try_recv() is repeated after every Ok until the queue is empty",
+              "broadcast::Sender::send fetches at most one recovered subscriber per broadcast (the Ok outcome of ready_rx.try_recv() "
+              "does not lead back to try_recv): further recovered subscribers miss values without a lag marker", b.loc(bb))
+
+
 def run(ck, F):
-    for r in (r16_1, r16_2, r16_3, r16_4, r16_5):
+    for r in (r16_1, r16_2, r16_3, r16_4, r16_5, r16_6):
         ck.run_rule(r)
